@@ -161,6 +161,40 @@ fn single_subst_delta_and_range_coverage() {
 }
 
 #[test]
+fn coverage_and_class_def_primitives() {
+    use write_fonts::{dump_table, read::{FontData, FontRead, tables::layout as rl}};
+    let bytes = dump_table(&CoverageTable::format_2(vec![
+        RangeRecord::new(g(2), g(2), 0),
+        RangeRecord::new(g(10), g(12), 1),
+    ]))
+    .unwrap();
+    let c = rl::CoverageTable::read(FontData::new(&bytes)).unwrap();
+    assert_eq!(otlayout::cov::coverage_index(&c, 2), Some(0));
+    assert_eq!(otlayout::cov::coverage_index(&c, 11), Some(2));
+    assert_eq!(otlayout::cov::coverage_index(&c, 13), None);
+    assert_eq!(otlayout::cov::coverage_index(&c, 0), None);
+    assert_eq!(otlayout::cov::coverage_glyphs(&c), [2, 10, 11, 12]);
+    let bytes = dump_table(&cov(&[3, 7, 9])).unwrap();
+    let c = rl::CoverageTable::read(FontData::new(&bytes)).unwrap();
+    assert_eq!(otlayout::cov::coverage_index(&c, 7), Some(1));
+    assert_eq!(otlayout::cov::coverage_index(&c, 8), None);
+    assert_eq!(otlayout::cov::coverage_glyphs(&c), [3, 7, 9]);
+
+    let bytes = dump_table(&ClassDef::format_1(g(5), vec![2, 0, 7])).unwrap();
+    let cd = rl::ClassDef::read(FontData::new(&bytes)).unwrap();
+    let classes: Vec<u16> = (3..=9).map(|gid| otlayout::cov::class_of(&cd, gid)).collect();
+    assert_eq!(classes, [0, 0, 2, 0, 7, 0, 0]);
+    let bytes = dump_table(&ClassDef::format_2(vec![
+        ClassRangeRecord::new(g(4), g(5), 3),
+        ClassRangeRecord::new(g(8), g(8), 1),
+    ]))
+    .unwrap();
+    let cd = rl::ClassDef::read(FontData::new(&bytes)).unwrap();
+    let classes: Vec<u16> = (3..=9).map(|gid| otlayout::cov::class_of(&cd, gid)).collect();
+    assert_eq!(classes, [0, 3, 3, 0, 0, 1, 0]);
+}
+
+#[test]
 fn first_matching_subtable_wins() {
     // two subtables covering glyph 1 differently, a third covering only glyph 2
     let lookup = SubstitutionLookup::Single(Lookup::new(
